@@ -57,6 +57,22 @@ theorem take_append_len (f r : List Byte) (n : Nat) (h : f.length = n) : (f ++ r
 theorem drop_append_len (f r : List Byte) (n : Nat) (h : f.length = n) : (f ++ r).drop n = r := by
   subst h; simp
 
+/-- the frame count every codec init derives from the file length, on a store `header ++ D bytes` -/
+theorem framesOf_nat (H D : Nat) (bw : Nat) (hbw : 0 < bw) :
+    (framesOf ((H + D : Nat) : Int) (H : Nat) 0 (bw : Nat)).toNat = D / bw := by
+  unfold framesOf
+  have h0 : ¬ ((0 : Int) > 0) := by decide
+  have hb : ((bw : Nat) : Int) > 0 := by exact_mod_cast hbw
+  rw [if_neg h0, if_pos hb]
+  by_cases hz : D = 0
+  · subst hz
+    have : ¬ (((H + 0 : Nat) : Int) > ((H : Nat) : Int)) := by push_cast; omega
+    rw [if_neg this]; simp
+  · have : ((H + D : Nat) : Int) > ((H : Nat) : Int) := by push_cast; omega
+    rw [if_pos this]
+    have e : ((H + D : Nat) : Int) - ((H : Nat) : Int) = ((D : Nat) : Int) := by push_cast; omega
+    rw [e, Int.tdiv_eq_ediv_of_nonneg (Int.natCast_nonneg _), ← Int.natCast_ediv, Int.toNat_natCast]
+
 /-! ### sessions -/
 
 structure Lawful (F : Fmt) : Prop where
